@@ -246,6 +246,64 @@ def r6_variant_coverage(ctx):
         r.anchor_missing("encoders that match on an enum (found %d)" % n)
 
 
+# Fields of a binding type that are deliberately not transmitted.
+WIRE_SKIP = {
+    ("sos_sync::types::MergeOutcome", "external_files"): "local bookkeeping of file transfers computed after a merge; not part of the wire message",
+}
+
+
+def r7_wire_bindings(ctx):
+    ws = ctx.ws
+    r = ctx.rule("C14-R7", "protobuf bindings copy every field in both directions",
+                 floor=40, kind="K5 sibling agreement (field sets)")
+    pairs = {}
+    for i in ws.impls:
+        if i["crate"] != "sos_protocol" or i.get("trait") not in ("core::convert::From", "core::convert::TryFrom"):
+            continue
+        tf = i.get("trait_full") or ""
+        m = re.match(r"<([\w:<>, ]+) as core::convert::(From|TryFrom)<([\w:<>, &]+)>>$", tf)
+        if not m:
+            continue
+        dst, kind, src = m.group(1), m.group(2), m.group(3)
+        if "Wire" in dst.rsplit("::", 1)[-1] and kind == "From":
+            pairs.setdefault((src, dst), {})["to_wire"] = i
+        if "Wire" in src.rsplit("::", 1)[-1] and kind == "TryFrom":
+            pairs.setdefault((dst, src), {})["from_wire"] = i
+    n = 0
+    for (t, w), d in sorted(pairs.items()):
+        if "to_wire" not in d or "from_wire" not in d:
+            continue
+        tb, wb = re.sub(r"<.*", "", t), re.sub(r"<.*", "", w)
+        ta, wa = ws.adts.get(tb), ws.adts.get(wb)
+        if not ta or not wa or wa["kind"] != "Struct":
+            continue
+        n += 1
+        wfields = [f["name"] for f in wa["variants"][0]["fields"]]
+        fw = next((ws.fns.get(it["path"]) for it in d["from_wire"]["items"] if it["name"] == "try_from"), None)
+        tw = next((ws.fns.get(it["path"]) for it in d["to_wire"]["items"] if it["name"] == "from"), None)
+        if not fw or not tw:
+            continue
+        rd, _w = idioms.fields_touched(ws, fw, wb)
+        # destructuring `let WireX { a, b } = value` shows as reads too
+        missing = [f for f in wfields if f not in rd]
+        key = "%s<->%s" % (tb.rsplit("::", 1)[-1], wb.rsplit("::", 1)[-1])
+        if missing and len(wfields) > 1:
+            r.violation(key + "|from-wire", cfg.loc(fw.main), "TryFrom<%s> never reads wire field(s) %s: they are dropped when a message is received" % (wb.rsplit("::", 1)[-1], missing), work=len(wfields))
+        else:
+            r.ok(key + "|from-wire", cfg.loc(fw.main), "reads %s" % sorted(rd & set(wfields)), work=len(wfields))
+        if ta["kind"] == "Struct":
+            tfields = [f["name"] for f in ta["variants"][0]["fields"]]
+            rd2, _w2 = idioms.fields_touched(ws, tw, tb)
+            getters = {cname(t2) for _b, _i, t2 in tw.calls()}
+            miss2 = [f for f in tfields if f not in rd2 and f not in getters and (tb, f) not in WIRE_SKIP and not f.isdigit()]
+            if miss2:
+                r.violation(key + "|to-wire", cfg.loc(tw.main), "From<%s> for the wire type never reads field(s) %s: they are not transmitted" % (tb.rsplit("::", 1)[-1], miss2), work=len(tfields))
+            else:
+                r.ok(key + "|to-wire", cfg.loc(tw.main), "reads %s" % sorted(rd2 & set(tfields)), work=len(tfields))
+    if n < 25:
+        r.anchor_missing("From/TryFrom pairs of protobuf bindings (found %d)" % n)
+
+
 def _self_fields(ws, adt_path):
     adt = ws.adts.get(adt_path)
     if not adt or adt["kind"] != "Struct":
@@ -380,3 +438,4 @@ def run(ctx):
     r4_determinism(ctx)
     r5_db_row_mapping(ctx)
     r6_variant_coverage(ctx)
+    r7_wire_bindings(ctx)
